@@ -10,6 +10,7 @@ RULE = ("all rooted DAG shapes n<=4 (wide shapes up to 5 in thorough) x every pa
         "parallelizable or JOBS=1; distinct = distinct (case, terminal event order)"
         ' Launch failures and non-zero exits of one task among parallel siblings are included (slot bookkeeping on the failure path).')
 ASSUMPTIONS = [
+    "mixed parallelizable/sequential graphs with one failing task: all 3-task graphs and the 4-task graphs with <= 4 edges (all in thorough)",
     "a process is live from its spawn until its exit at the (virtual) kernel, not until Conductor notices",
     "group/combine tasks are 'not marked parallelizable': they must not start while any process is live",
 ]
@@ -82,6 +83,19 @@ def items(tier):
                 for jobs in (2, 3):
                     for fk in (["launch"], ["exit", 3]):
                         out.append({"case": {"g": g, "kinds": kinds, "pars": [True] * n, "jobs": jobs, "fails": {str(failing): fk}}, "bound": 0})
+    # a failing / unlaunchable / skipped task in a MIX of parallelizable and sequential tasks: every graph on 3-4 tasks, every
+    # assignment of the flags, every single failing process task (slot and token bookkeeping when a dequeued op never gets in flight)
+    import itertools as _it
+    for g in rungrid.graphs_upto((3, 4)):
+        n = len(g)
+        if n == 4 and tier == "quick" and sum(len(d) for d in g) > 4:
+            continue
+        for pars in _it.product((False, True), repeat=n):
+            if not any(pars) or all(pars):
+                continue
+            for failing in range(1, n):
+                for fk in (["exit", 3], ["mkdir"], ["execfail"]):
+                    out.append({"case": {"g": g, "kinds": ["cmd"] * n, "pars": list(pars), "jobs": 2, "fails": {str(failing): fk}}, "bound": 0})
     # wide shapes: antichain under a root, n = 5 (root + 4 leaves), and two-level fans
     wide = [[[1, 2, 3, 4], [], [], [], []], [[1, 2], [3, 4], [3, 4], [], []], [[1, 2, 3], [4], [4], [4], []]]
     for g in wide:
